@@ -249,6 +249,11 @@ var C03OpenFindings = []C03Finding{
 	{"C03-subselect-predicate-before-with", C03SubselectPredicateBeforeWith},
 	{"C03-distinct-order-by-unprojected", C03DistinctOrderByUnprojected},
 	{"C03-shortest-path-bound-endpoint-filter", C03ShortestPathBoundEndpoint},
+	{"C03-shortest-path-same-endpoints", C03ShortestPathSameEndpoints},
+	{"C03-update-value-reads-stale-frame", C03UpdateValueReadsStaleFrame},
+	{"C03-pattern-predicate-with-update", C03PatternPredicateWithUpdate},
+	{"C03-unwind-with-update", C03UnwindWithUpdate},
+	{"C03-path-with-update", C03PathWithUpdate},
 }
 
 // C03ExcludedBy returns the id of the first open finding whose shape the query has ("" = none).
@@ -461,6 +466,179 @@ func C03ShortestPathBoundEndpoint(q *cypher.RegularQuery) bool {
 		}
 		for v := range c03VariablesIn(c.Node) {
 			seen[v] = true
+		}
+	}
+	return false
+}
+
+// C03ShortestPathSameEndpoints: shortestPath((n)-[*]->(n)) joins the node table twice under the same alias
+// (`join node n0 on … join node n0 on …`). DAWGS rejects equal endpoints at run time
+// (shortest_path_self_endpoint_error), but the statement it would run never gets that far.
+func C03ShortestPathSameEndpoints(q *cypher.RegularQuery) bool {
+	for _, c := range C03Clauses(q) {
+		if c.Match == nil {
+			continue
+		}
+		for _, p := range c.Match.Pattern {
+			if p == nil || !(p.ShortestPathPattern || p.AllShortestPathsPattern) {
+				continue
+			}
+			var names []string
+			for _, el := range p.PatternElements {
+				if np, ok := el.AsNodePattern(); ok && np.Variable != nil {
+					names = append(names, np.Variable.Symbol)
+				}
+			}
+			if len(names) >= 2 && names[0] == names[len(names)-1] {
+				return true
+			}
+		}
+	}
+	return false
+}
+
+// c03UpdateTargets lists the variables the updating clauses of one query part mutate, and reports
+// whether some assigned value (SET right-hand side, CREATE property value) reads a variable.
+func c03UpdateTargets(cs []C03Clause, part int) (targets map[string]bool, valueReadsVariable bool, n int) {
+	targets = map[string]bool{}
+	for _, c := range cs {
+		if c.Part != part || c.Kind != "update" {
+			continue
+		}
+		n++
+		C03WalkModel(c.Node, func(node any, _ []any) bool {
+			switch t := node.(type) {
+			case *cypher.SetItem:
+				for v := range c03VariablesIn(t.Left) {
+					targets[v] = true
+				}
+				if len(c03VariablesIn(t.Right)) > 0 {
+					valueReadsVariable = true
+				}
+			case *cypher.RemoveItem:
+				for v := range c03VariablesIn(t) {
+					targets[v] = true
+				}
+			case *cypher.Delete:
+				for v := range c03VariablesIn(t) {
+					targets[v] = true
+				}
+			case *cypher.Create:
+				for v := range c03VariablesIn(t) {
+					targets[v] = true
+				}
+				C03WalkModel(t, func(inner any, _ []any) bool {
+					if pl, ok := inner.(*cypher.PropertyLookup); ok && pl != nil {
+						valueReadsVariable = true
+					}
+					return true
+				})
+			}
+			return true
+		})
+	}
+	return targets, valueReadsVariable, n
+}
+
+func c03Parts(cs []C03Clause) []int {
+	seen := map[int]bool{}
+	var out []int
+	for _, c := range cs {
+		if !seen[c.Part] {
+			seen[c.Part] = true
+			out = append(out, c.Part)
+		}
+	}
+	return out
+}
+
+// C03UpdateValueReadsStaleFrame: the value expressions of SET / CREATE are rewritten against the frames that
+// exist when the clause is visited, but the updates are rendered later as a chain of CTEs, one per mutated
+// binding, each reading FROM the one before it. The second update of the chain still names the frame its
+// value was rewritten against (`… jsonb_build_object('x', (s1.n1).properties -> 'name') from s2 …`). Shape: a
+// query part whose updating clauses mutate two or more bindings while some assigned value reads a variable.
+func C03UpdateValueReadsStaleFrame(q *cypher.RegularQuery) bool {
+	cs := C03Clauses(q)
+	for _, part := range c03Parts(cs) {
+		targets, reads, _ := c03UpdateTargets(cs, part)
+		if len(targets) >= 2 && reads {
+			return true
+		}
+	}
+	return false
+}
+
+func c03PartHasUpdate(cs []C03Clause, part int) bool {
+	for _, c := range cs {
+		if c.Part == part && c.Kind == "update" {
+			return true
+		}
+	}
+	return false
+}
+
+// C03PatternPredicateWithUpdate: a pattern predicate is rendered against the frame current at its MATCH and
+// placed in the final select; an update frame in between re-projects the bindings, so the predicate's
+// references to the MATCH frame dangle. Shape: a query part with an updating clause and a pattern predicate.
+func C03PatternPredicateWithUpdate(q *cypher.RegularQuery) bool {
+	cs := C03Clauses(q)
+	for _, c := range cs {
+		if c.Match != nil && c03PartHasUpdate(cs, c.Part) && c03Contains(c03WhereOf(c.Match), c03IsPatternPredicate) {
+			return true
+		}
+	}
+	return false
+}
+
+// C03UnwindWithUpdate: the unwound value is a FROM item of the final select only; update frames project it
+// as if the previous frame had it as a column (`returning i0 as i0`, `s0.i0`). Shape: a query part with an
+// UNWIND and an updating clause.
+func C03UnwindWithUpdate(q *cypher.RegularQuery) bool {
+	cs := C03Clauses(q)
+	for _, c := range cs {
+		if c.Kind == "unwind" && c03PartHasUpdate(cs, c.Part) {
+			return true
+		}
+	}
+	return false
+}
+
+// C03PathWithUpdate: update frames re-project node and relationship bindings but not path bindings, so a
+// path read after (or inside) an update names a column `pcN` that no frame exports. Shape: a query part with
+// an updating clause in which a path variable occurs outside the pattern that declares it.
+func C03PathWithUpdate(q *cypher.RegularQuery) bool {
+	cs := C03Clauses(q)
+	paths := c03PathVariables(cs)
+	for _, c := range cs {
+		if c.Kind == "update" {
+			for v := range c03VariablesIn(c.Node) {
+				if paths[v] {
+					return true
+				}
+			}
+			// CREATE p = … declares a path of its own
+			if c03Contains(c.Node, func(n any) bool { pp, ok := n.(*cypher.PatternPart); return ok && pp != nil && pp.Variable != nil }) {
+				return true
+			}
+		}
+	}
+	for _, c := range cs {
+		if !c03PartHasUpdate(cs, c.Part) {
+			continue
+		}
+		var where any
+		switch {
+		case c.Match != nil:
+			where = c03WhereOf(c.Match)
+		case c.Return != nil:
+			where = c.Return
+		case c.With != nil:
+			where = c.With
+		}
+		for v := range c03VariablesIn(where) {
+			if paths[v] {
+				return true
+			}
 		}
 	}
 	return false
